@@ -63,6 +63,7 @@ struct BloomFilter {
 
 impl BloomFilter {
     fn new(expected_items: usize, false_positive_rate: f64) -> Self {
+        let expected_items = expected_items.max(1); // a zero-sized filter would divide by zero in insert/contains
         let size = (-((expected_items as f64) * false_positive_rate.ln()) / (2.0_f64.ln().powi(2)))
             .ceil() as usize;
         let hash_functions = ((size as f64 / expected_items as f64) * 2.0_f64.ln()).ceil() as usize;
